@@ -3,5 +3,6 @@ pub mod codec;
 pub mod interp;
 pub mod gen;
 pub mod io;
+pub mod pdyn;
 pub mod pgen;
 pub mod total;
